@@ -74,7 +74,12 @@ class MultipleOfConstraint(Constraint):
     mult_of: int
 
     def validate(self, data: Any) -> bool:
-        return not (data % self.mult_of)
+        try:
+            return not (data % self.mult_of)
+        except OverflowError:  # integer too large to be converted to float
+            from fractions import Fraction
+
+            return not (Fraction(data) % Fraction(self.mult_of))
 
 
 @dataclass
